@@ -1260,9 +1260,21 @@ class UGrid(DimensionConvention[UGridKind, UGridIndex]):
 
         # Save all the topology variables to one combined dataset
         topology_path = work_path / (str(topology.mesh_variable.name) + ".nc")
+        # Coordinate variables defined on the mesh, such as node coordinates
+        # named in a `coordinates` attribute, are sliced like data variables.
+        mesh_dimension_names = {topology.node_dimension, topology.face_dimension}
+        if has_edges:
+            mesh_dimension_names.add(topology.edge_dimension)
+        mesh_coords = {
+            name: coord for name, coord in dataset.coords.items()
+            if not mesh_dimension_names.isdisjoint(coord.dims)
+        }
         topology_dataset = xarray.Dataset(
             data_vars={variable.name: variable for variable in topology_variables},
-            coords=dataset.coords,
+            coords={
+                name: coord for name, coord in dataset.coords.items()
+                if name not in mesh_coords
+            },
         )
         topology_dataset.to_netcdf(topology_path)
         mfdataset_paths.append(topology_path)
@@ -1280,7 +1292,7 @@ class UGrid(DimensionConvention[UGridKind, UGridIndex]):
             dimension_masks[topology.edge_dimension] = ~numpy.ma.getmask(new_edge_indexes)
         mesh_dimensions = set(dimension_masks.keys())
 
-        for name, data_array in dataset.data_vars.items():
+        for name, data_array in [*dataset.data_vars.items(), *mesh_coords.items()]:
             data_array_path = work_path / (str(name) + '.nc')
             if name in topology_variable_names:
                 logger.debug("Skipping %r as it is a topology variable", name)
